@@ -2815,11 +2815,12 @@ namespace awkward {
               output = current_outputs_[(IndexTypeOf<int64_t>)out_num].get();
             }
 
-            uint64_t mask = (1 << bit_width) - 1;
+            uint64_t mask = ~(uint64_t)0 >> (64 - bit_width);   // bit_width is 1..64
             uint64_t bits_wnd_l = 8;
             uint64_t bits_wnd_r = 0;
             int64_t items_remaining = num_items;
             uint64_t data;
+            uint64_t data_hi = 0;   // window bits 64 and above (wide items need up to 71 bits)
             uint64_t tmp;
             uint8_t* tmpptr;
 
@@ -2839,10 +2840,15 @@ namespace awkward {
               if (bits_wnd_r >= 8) {
                 bits_wnd_r -= 8;
                 bits_wnd_l -= 8;
-                data >>= 8;
+                data = (data >> 8) | (data_hi << 56);
+                data_hi >>= 8;
               }
               else if (bits_wnd_l - bits_wnd_r >= (uint64_t)bit_width) {
-                tmp = (data >> bits_wnd_r) & mask;
+                tmp = data >> bits_wnd_r;
+                if (bits_wnd_r != 0) {
+                  tmp |= data_hi << (64 - bits_wnd_r);
+                }
+                tmp &= mask;
                 if (output == nullptr) {
                   if (stack_cannot_push()) {
                     current_error_ = util::ForthError::stack_overflow;
@@ -2866,7 +2872,12 @@ namespace awkward {
                   // For bit-flipping: https://stackoverflow.com/a/2603254/1623645
                   tmp = (uint64_t)(bitswap_lookup[tmp & 0b1111] << 4) | bitswap_lookup[tmp >> 4];
                 }
-                data |= tmp << bits_wnd_l;
+                if (bits_wnd_l < 64) {
+                  data |= tmp << bits_wnd_l;
+                }
+                else {
+                  data_hi |= tmp << (bits_wnd_l - 64);
+                }
                 bits_wnd_l += 8;
               }
             }
